@@ -113,7 +113,8 @@ CHECKS = {
     "C09": {
         "engine": "input-enum", "category": "model_checking", "design_ref": "DESIGN.md §2 C09",
         "technique": "bounded-exhaustive enumeration of tag x context x body; body read back between sentinels, tree structure compared with the plain-body structure, protect/restore round trip",
-        "text": SMALL_SCOPE + "6 opaque tags x 7 embedding contexts (top, list item, table cell, bold, positional/named template argument, template body) x every body over a 40-lexeme markup alphabet up to length 2 (quick) / 3 (thorough); "
+        "text": SMALL_SCOPE + "6 opaque tags x 19 embedding contexts (top, list item, table cell, caption, bold, positional/named template argument, template body, parser-function branches, lc/uc arguments, behind ignored tags, inside re-parsed <ref>/<poem> bodies, beside braces nested too deep to expand) x every body over a 50-lexeme markup alphabet up to length 2 (quick) / 3 (thorough); "
+                "plus functions that consume their argument (urlencode, anchorencode, pad fill): no debris of a marker may reach the document; "
                 "the text between two sentinels must be exactly the body (entities decoded for nowiki/pre), the tree must have the structure it has with a plain-word body, and replace_uniq(replace_tags(s)) == s.",
         "note": "two known findings are reported as KNOWN-FINDING (include tags processed inside opaque tags; <nowiki> stripped inside <pre>); bodies containing those lexemes are attributed to them.",
     },
@@ -135,7 +136,8 @@ CHECKS = {
         "engine": "input-enum", "category": "model_checking", "design_ref": "DESIGN.md §2 C08",
         "technique": "bounded-exhaustive enumeration of stored collections (block alphabet x article/chapter structures) through the whole pipeline, tokens read back from the PDF text / ODF package",
         "text": SMALL_SCOPE + "collections are written with the fetcher's FsOutput, zipped and re-opened with make_wiki: single articles B^1 and B^2 over an 18-entry block alphabet (grammar blocks, template call resolved from the archive, small and large images as thumbnail/inline/gallery/table cell, each use with its own caption), "
-                "two-article books B x B with and without chapter, three- and four-article books over all cyclic selections; rendered by the rl writer entry point (PDF text must contain every token), the odf entry point (package opens, XML parses, odflint clean) and the rl single-article test mode.",
+                "two-article books B x B with and without chapter, three- and four-article books over all cyclic selections; runs of figures followed by every block, a row taller than a page (fail-safe pass), shared reference names/URLs across articles, templates whose body holds <ref>/<nowiki>/<gallery>, a page-boundary sweep (48 distances), "
+                "every block rendered a SECOND time in the same process, output paths with and without '.pdf' ending; rendered by the rl writer entry point (PDF text must contain every token, once per use), the odf entry point (package opens, XML parses, odflint clean) and the rl single-article test mode.",
         "note": "ordinary content only; pdftk/pdfsam are absent, so merging the table of contents degrades to its logged warning; ODF completeness is counted, not judged (the statement asks for well-formed, lint-clean ODF).",
     },
     "C11": {
